@@ -4,6 +4,7 @@ import AwsVerif.Proofs.C10.Narrow
 import AwsVerif.Proofs.C10.Consume
 import AwsVerif.Proofs.C10.Growth
 import AwsVerif.Proofs.C10.Rfc
+import AwsVerif.Proofs.C10.GenBridge
 /-!
 # C10 — CBOR encoder and decoder round-trip every item sequence
 
@@ -175,6 +176,106 @@ example : Rfc.wellFormed 5 false [0xBF, 0x01, 0xFF] = none := by decide
 example : Rfc.wellFormed 5 false [0x19, 0x01] = none := by decide
 example : Rfc.wellFormed 5 false [0xF8, 0x10] = none := by decide
 example : Rfc.wellFormed 5 false [0x9F, 0x01, 0x82, 0x02, 0x03, 0xFF, 0x00] = some (.indefinite, [0x00]) := by decide
+
+/-! ## Tie to the layer regenerated from /repo on every run (`AwsVerif.Gen.Cbor`, gen/cbor_gen.py)
+
+The statements below are about definitions re-derived from the current text of cbor.c, encoders.c,
+encoding.c, streaming.c and loaders.c; an edit there changes what is being proved. -/
+
+section Generated
+open AwsVerif.Gen.Cbor
+
+/-- `_cbor_encode_uint`'s threshold chain, translated from encoders.c, picks the branch the model
+takes, and is the shortest-width rule -/
+theorem c10_gen_width (v off : Nat) :
+    encUint v off =
+      (if encodeUintWidth v = 8 then encUint8 v off else if encodeUintWidth v = 16 then encUint16 v off
+       else if encodeUintWidth v = 32 then encUint32 v off else encUint64 v off) ∧
+    encodeUintWidth v = (if v < 2^8 then 8 else if v < 2^16 then 16 else if v < 2^32 then 32 else 64) :=
+  ⟨gen_width_decision v off, gen_width_values v⟩
+
+/-- every byte `_cbor_encode_uintN` stores (translated store by store from encoders.c) is the model's
+byte, and the returned length is the number of bytes -/
+theorem c10_gen_bytes (v off : Nat) :
+    (v < 256 → encUint8 v off =
+      (if v ≤ 23 then [b8 (enc8_b0 v true 2 off).2] else [b8 (enc8_b0 v true 2 off).2, b8 (enc8_b1 v true 2 off).2])) ∧
+    encUint16 v off = [b8 (enc16_b0 v true 3 off).2, b8 (enc16_b1 v true 3 off).2, b8 (enc16_b2 v true 3 off).2] ∧
+    encUint32 v off = [b8 (enc32_b0 v true 5 off).2, b8 (enc32_b1 v true 5 off).2, b8 (enc32_b2 v true 5 off).2,
+      b8 (enc32_b3 v true 5 off).2, b8 (enc32_b4 v true 5 off).2] ∧
+    encUint64 v off = [b8 (enc64_b0 v true 9 off).2, b8 (enc64_b1 v true 9 off).2, b8 (enc64_b2 v true 9 off).2,
+      b8 (enc64_b3 v true 9 off).2, b8 (enc64_b4 v true 9 off).2, b8 (enc64_b5 v true 9 off).2,
+      b8 (enc64_b6 v true 9 off).2, b8 (enc64_b7 v true 9 off).2, b8 (enc64_b8 v true 9 off).2] ∧
+    (v < 256 → enc8Len v 2 off = (encUint8 v off).length) ∧ enc16Len v 3 off = (encUint16 v off).length ∧
+    enc32Len v 5 off = (encUint32 v off).length ∧ enc64Len v 9 off = (encUint64 v off).length :=
+  ⟨gen_bytes8 v off, gen_bytes16 v off, gen_bytes32 v off, gen_bytes64 v off,
+   fun h => gen_len8 v 2 off h (by omega), gen_len16 v 3 off (by omega), gen_len32 v 5 off (by omega),
+   gen_len64 v 9 off (by omega)⟩
+
+/-- Every libcbor encode call of cbor.c (17 sites, regenerated) is preceded by
+`aws_byte_buf_reserve_smart_relative` with a size that makes the libcbor writer (generated length
+functions) return a non-zero length for every value the site can pass, and leaves room for a string's
+payload; the sizes are the model's `reserveLen`. -/
+theorem c10_gen_reservation :
+    (∀ s ∈ sites, SiteSafe s) ∧
+    sites.all (fun s => modelReserve s.encoder == some (s.base, s.plusLen)) = true :=
+  ⟨gen_sites_safe, gen_reserve_model⟩
+
+/-- the offsets / bytes encoding.c passes for each item kind and the control values of cbor.c are the
+model's -/
+theorem c10_gen_offsets :
+    encFns.lookup "cbor_encode_uint" = some ("_cbor_encode_uint", 0x00) ∧
+    encFns.lookup "cbor_encode_negint" = some ("_cbor_encode_uint", 0x20) ∧
+    encFns.lookup "cbor_encode_bytestring_start" = some ("_cbor_encode_uint", 0x40) ∧
+    encFns.lookup "cbor_encode_string_start" = some ("_cbor_encode_uint", 0x60) ∧
+    encFns.lookup "cbor_encode_array_start" = some ("_cbor_encode_uint", 0x80) ∧
+    encFns.lookup "cbor_encode_map_start" = some ("_cbor_encode_uint", 0xA0) ∧
+    encFns.lookup "cbor_encode_tag" = some ("_cbor_encode_uint", 0xC0) ∧
+    encFns.lookup "cbor_encode_ctrl" = some ("_cbor_encode_uint8", 0xE0) ∧
+    encFns.lookup "cbor_encode_single" = some ("_cbor_encode_uint32", 0xE0) ∧
+    encFns.lookup "cbor_encode_double" = some ("_cbor_encode_uint64", 0xE0) ∧
+    encFns.lookup "cbor_encode_indef_bytestring_start" = some ("_cbor_encode_byte", 0x5F) ∧
+    encFns.lookup "cbor_encode_indef_string_start" = some ("_cbor_encode_byte", 0x7F) ∧
+    encFns.lookup "cbor_encode_indef_array_start" = some ("_cbor_encode_byte", 0x9F) ∧
+    encFns.lookup "cbor_encode_indef_map_start" = some ("_cbor_encode_byte", 0xBF) ∧
+    encFns.lookup "cbor_encode_break" = some ("_cbor_encode_byte", 0xFF) :=
+  gen_offsets_model
+
+theorem c10_gen_simple_values :
+    AWS_CBOR_SIMPLE_VAL_FALSE = 20 ∧ AWS_CBOR_SIMPLE_VAL_TRUE = 21 ∧ AWS_CBOR_SIMPLE_VAL_NULL = 22 ∧
+    AWS_CBOR_SIMPLE_VAL_UNDEFINED = 23 ∧ AWS_CBOR_SIMPLE_VAL_BREAK = 31 ∧
+    s_cbor_element_width_64bit = 9 ∧ s_cbor_element_width_32bit = 5 :=
+  gen_simple_values
+
+/-- `_cbor_load_uint16/32/64` (translated with the byte reads as parameters) are the model's big-endian
+load, and every loader reads the number of bytes its name says -/
+theorem c10_gen_loaders :
+    (∀ b0 b1, b0 < 256 → b1 < 256 → loadUint16 b0 b1 = loadBE [b8 b0, b8 b1]) ∧
+    (∀ b0 b1 b2 b3, b0 < 256 → b1 < 256 → b2 < 256 → b3 < 256 →
+      loadUint32 b0 b1 b2 b3 = loadBE [b8 b0, b8 b1, b8 b2, b8 b3]) ∧
+    (∀ b0 b1 b2 b3 b4 b5 b6 b7, b0 < 256 → b1 < 256 → b2 < 256 → b3 < 256 → b4 < 256 → b5 < 256 → b6 < 256 →
+      b7 < 256 → loadUint64 b0 b1 b2 b3 b4 b5 b6 b7 = loadBE [b8 b0, b8 b1, b8 b2, b8 b3, b8 b4, b8 b5, b8 b6, b8 b7]) ∧
+    loaderWidths = [("_cbor_decode_half", 2), ("_cbor_load_double", 8), ("_cbor_load_float", 4), ("_cbor_load_half", 2),
+      ("_cbor_load_uint16", 2), ("_cbor_load_uint32", 4), ("_cbor_load_uint64", 8), ("_cbor_load_uint8", 1)] :=
+  ⟨gen_load16, gen_load32, gen_load64, gen_loader_widths⟩
+
+/-- `claim_bytes`' test (translated from streaming.c) succeeds iff the unread bytes cover the request;
+it is the model's need-more test on the argument bytes -/
+theorem c10_gen_claim_bytes :
+    (∀ required provided read, read ≤ provided → provided < 2^64 →
+      claimBytes required provided read = decide (required ≤ provided - read)) ∧
+    (∀ ai (rest : List UInt8), 1 + rest.length < 2^64 →
+      claimBytes (argBytes ai) (1 + rest.length) 1 = !decide (rest.length < argBytes ai)) :=
+  ⟨gen_claim_bytes, gen_claim_model⟩
+
+/-- The switch of `cbor_stream_decode`, regenerated as one row per initial byte: in every row the loader
+reads exactly the bytes that were claimed (the initial byte, or the 1/2/4/8 bytes after it) and string
+data starts right behind the length bytes; and the model's `streamDecode` agrees with every row (error
+verdict, bytes needed, aws type produced, embedded / literal argument, string payload). -/
+theorem c10_gen_decode_table :
+    decodeTable.length = 256 ∧ decodeTable.all rowConsistent = true ∧ tableAgrees decodeTable 0 = true :=
+  ⟨gen_table_length, gen_loader_matches_claim, gen_table_matches_model⟩
+
+end Generated
 
 /-! ## Hypotheses are satisfiable / concrete instances -/
 
